@@ -90,3 +90,23 @@ CHECKS["C14"] = {
     "technique": "deterministic simulation with fault injection where the fault is the documented misuse or the unreadable/non-Tasmanian file (simulated file system), injected into seeded histories and judged against an un-faulted twin",
     "determinism_runs": 2000, "exec_timeout": 120, "batch_timeout": 600,
 }
+
+CHECKS["C17"] = {
+    "id": "C17", "engine": "simfs+crash", "flavour": "asan", "binary": "build/asan/c17", "level": "fault_enumeration",
+    "tiers": {"quick": {"runs": 9000, "batch": 150, "wall_cap": 420}, "thorough": {"runs": 60000, "batch": 100, "wall_cap": 3000}},
+    "rule": "one case = a seeded workload (family, rule, dims, outputs, budget, batch, tolerance/criteria or anisotropic type/weights, initial guess) run by sequential constructSurrogate with a checkpoint file "
+            "on the simulated file system, killed 0-3 times (process-kill model: completed writes survive, the in-flight write is torn at a byte offset, user-space buffers are lost) and restarted with a "
+            "fresh grid of a different rule; 'sweep' cases enumerate EVERY kill point of the first process (every event boundary; offsets 1, middle, len-1 and a seeded one inside each write), optionally "
+            "crossed with the first kill points of the restart; distinct = distinct (workload, kill phases/events/tears)",
+    "components": {"real": ["TasGrid::constructCommon (sequential mode) incl. checkpoint/recovery protocol", "CandidateManager, CompleteStorage", "grid write/read, libstdc++ basic_filebuf"],
+                   "simulated": ["file system under /simfs/ with process-kill crash model (freeze of the durable image at an event / torn write)", "process death and restart", "model callback (injective values, logged)"]},
+    "expect_probes": ["reach.recovered_from_last_completed", "reach.backup_file_exists_at_kill", "reach.torn_write", "reach.kill_after_last_byte_before_close", "reach.restart_from_scratch_nothing_completed", "sweep.workloads"],
+    "assumptions": ["process-kill crash model (no power loss: completed write() calls survive in order); no ENOSPC/EIO",
+                    "samples parked inside the grid's construction data are not visible through the API and are left out of the re-computation oracle",
+                    "with fewer than 1000 loaded points the stored-samples tail of a checkpoint is empty (eager loading); the tail path is exercised only through torn-read handling"],
+    "level_text": "fault enumeration inside seeded workloads: sampled kill points in most cases and, in sweep cases, every kill point of the first process (with torn-write offsets), each followed by restart(s) and checked for "
+                  "recovery source/integrity, bounded re-computation and completion",
+    "level_note": "workloads are seeded, kill points of a sweep are exhaustive for that workload's first process; sequential mode only in this engine (parallel mode: see C18 engine for the thread protocol). Trusted: the engine's decoding of checkpoints through the public reader, ASan/UBSan",
+    "technique": "deterministic crash/restart simulation on a simulated file system (process-kill model with torn writes), with enumeration of all kill points per seeded workload and history oracles for recovery, re-computation and completion",
+    "determinism_runs": 600, "exec_timeout": 300, "batch_timeout": 900, "minimise_s": 120,
+}
